@@ -370,6 +370,18 @@ theorem model_expectation_is_expectation_value {R : Type} [Ring R] [Algebra GQ R
         + ∑ p ∈ range n, ∑ q ∈ range n, ∑ r ∈ range n, ∑ s ∈ range n, o2 p q r s • (ad p * ad q * a r * a s)) :=
   expectation_bridge φ hφ c o1 o2
 
+open OFV.Car Finset in
+/-- **bridge for `get_chemist_two_body_coefficients`** (`spin_basis=False` entries of the Model): the physicist-ordered
+operator of any rational tensor `h` equals the chemist-ordered operator with `g = chemEntry h false` (`g[p,q,r,s] = h[p,r,s,q]`)
+plus the one-body correction `−Σ_q g[P,q,q,S]` — the reindexing of `chemist_reorder_identity` done by the code. -/
+theorem model_chemist_entries_are_chemist_reordering {R : Type} [Ring R] [Algebra ℚ R] (n : Nat) (ad a : Nat → R)
+    (hc : CAR n ad a) (h : Nat → Nat → Nat → Nat → ℚ) :
+    ∑ p ∈ range n, ∑ q ∈ range n, ∑ r ∈ range n, ∑ s ∈ range n, h p q r s • (ad p * ad q * a r * a s) =
+      (∑ P ∈ range n, ∑ Q ∈ range n, ∑ Rr ∈ range n, ∑ S ∈ range n,
+          chemEntry h false P Q Rr S • (ad P * a Q * ad Rr * a S))
+      + ∑ P ∈ range n, ∑ S ∈ range n, (-(∑ q ∈ range n, chemEntry h false P q q S)) • (ad P * a S) :=
+  chemEntry_bridge hc h
+
 -- non-vacuity: one fermionic mode as 2 × 2 integer matrices satisfies the CAR for n = 1
 open OFV.Car Matrix in
 example : CAR 1 (fun _ => (!![0, 0; 1, 0] : Matrix (Fin 2) (Fin 2) ℤ)) (fun _ => !![0, 1; 0, 0]) := by
